@@ -60,7 +60,7 @@ NONSTR = [None, True, False, 0, 1, 64, 1.5, [], {}, ["ab"], {"a": 1}] + [
 
 def plan(tier, seed):
     n = 16 if tier == "thorough" else 8
-    per = 4000 if tier == "quick" else 70000
+    per = 10000 if tier == "quick" else 150000
     specs = [{"kind": "strings", "count": per} for _ in range(n)]
     specs.append({"kind": "entries", "count": 3000 if tier == "quick" else 60000})
     specs.append({"kind": "lists", "count": 800 if tier == "quick" else 20000})
